@@ -688,6 +688,115 @@ def ip_model_queries(st, logs, stdout):
     return qs
 
 
+def direct_calls(out, model, root, tier, rng, xcheck):
+    """config.configure_logging / config.log_decision called directly in one process (harness/c18_worker.py):
+    (i) log_decision as a function: every subset of its optional arguments x log-full x awkward texts: the line that
+        appears is Logging.jline (Logging.entry ...) of the model, byte for byte (given the timestamp);
+    (ii) the disabled flag with a fault that comes and goes (a directory in the way of the log file, removed later):
+        per call, a line appears exactly where Cache.effects says one does - a failure silences the calls after it
+        until the next configure_logging, also when the sink works again."""
+    texts = ["ls -la", 'say "hi"', "a\\b", "tab\there", "nl\nx", "é\U0001f424", "\ud800", "", "}{", "x" * 300]
+    d = tempfile.mkdtemp(dir=root)
+    home = os.path.join(d, "home")
+    logs = os.path.join(d, "logs")
+    os.makedirs(home)
+    os.makedirs(logs)
+    env = {"PATH": "/usr/bin:/bin", "HOME": home, "PYTHONHASHSEED": "0"}
+
+    def run(final, watch):
+        job = {"src": os.path.join(lib.REPO, "src"), "argv": [], "history": [], "final": final, "snapshot": False, "watch": watch}
+        p = subprocess.run([PY, WORKER18], input=json.dumps(job).encode("utf-8", "surrogatepass"), capture_output=True, env=env, cwd=home, timeout=300)
+        if p.returncode != 0:
+            raise RuntimeError("worker failed: " + p.stderr.decode("utf-8", "replace")[-1500:])
+        return json.loads(p.stdout.decode())["growth"]
+
+    # (i) the entry as a function
+    calls = []
+    n = 0
+    for full in (True, False):
+        for rule in (None, "R"):
+            for message in (None, "M"):
+                for command in (None, "C"):
+                    for rep in range(1 if tier == "quick" else 6):
+                        t = lambda: texts[rng.randrange(len(texts))]   # noqa: E731
+                        calls.append({"full": full, "decision": rng.choice(["allow", "ask", "deny"]), "cmd": t(),
+                                      "rule": t() if rule else None, "message": t() if message else None,
+                                      "command": t() if command else None})
+                        n += 1
+    final, idx = [], []
+    path = os.path.join(logs, "direct.log")
+    for c in calls:
+        final.append({"k": "configure", "log": path, "full": c["full"]})
+        final.append({"k": "log_call", **{k: c[k] for k in ("decision", "cmd", "rule", "message", "command")}})
+        idx.append(len(final) - 1)
+    growth = run(final, [path])
+    for c, i in zip(calls, idx):
+        out.case("direct:" + json.dumps(c, sort_keys=True))
+        out.count("direct_optional_args", "".join(k[0] for k in ("rule", "message", "command") if c[k] is not None) or "-")
+        g = growth[i]
+        text = g[0][3] if g else ""
+        try:
+            ts = json.loads(text)["ts"]
+        except (ValueError, KeyError):
+            ts = ""
+        if any(0xD800 <= ord(ch) < 0xE000 for k in ("cmd", "rule", "message", "command") if c[k] for ch in c[k]):
+            text = None       # a lone surrogate does not survive the UTF-8 log file; the JSON stream covers the rendering
+        rec = len(xcheck) < 60
+        want = model.call(["log_entry", c["full"], c["decision"], c["cmd"], lib.opt(c["rule"]), lib.opt(c["message"]), lib.opt(c["command"]), ts], record=rec)
+        if rec:
+            xcheck.append((model.last_request, [], want))
+        if text is not None and text != want:
+            out.disagreements.append({"correspondence": "Logging.entry/jline <-> config.log_decision called directly", "call": c, "model": want, "impl": text})
+        if text is not None:
+            keys = list(json.loads(text)) if text else []
+            want_keys = ["decision", "cmd"] + [k for k in ("rule", "message") if c[k] is not None] + \
+                        (["command"] if c["full"] and c["command"] is not None else []) + ["ts"]
+            if keys != want_keys or not text.endswith("\n") or text.count("\n") != 1:
+                out.violations.append({"kind": "log-keys", "what": f"log_decision wrote keys {keys}, documented {want_keys}", "call": c, "line": text,
+                                       "signature_text": "direct-keys:" + json.dumps({k: c[k] is not None for k in ("rule", "message", "command")}) + str(c["full"])})
+    # (ii) a fault that comes and goes
+    call = {"k": "log_call", "decision": "allow", "cmd": "x", "rule": None, "message": None, "command": "x"}
+    scripts = []
+    for full in (True, False):
+        p1 = os.path.join(logs, f"t1_{full}")
+        os.mkdir(p1)
+        scripts.append((p1, [({"k": "configure", "log": p1, "full": full}, ["configure", [[p1, full]], False]),
+                             (call, ["log_decision", True]),                      # a directory is in the way: the write fails
+                             ({"k": "fs", "op": "rmdir", "path": p1}, None),     # the fault goes away
+                             (call, ["log_decision", False]), (call, ["log_decision", False]),   # still silent
+                             ({"k": "configure", "log": p1, "full": full}, ["configure", [[p1, full]], False]),
+                             (call, ["log_decision", False]), (call, ["log_decision", False])]))
+        p2 = os.path.join(logs, f"t2_{full}")
+        scripts.append((p2, [({"k": "configure", "log": p2, "full": full}, ["configure", [[p2, full]], False]),
+                             (call, ["log_decision", False]),
+                             ({"k": "fs", "op": "unlink", "path": p2}, None), ({"k": "fs", "op": "mkdir", "path": p2}, None),
+                             (call, ["log_decision", True]),
+                             ({"k": "fs", "op": "rmdir", "path": p2}, None),
+                             (call, ["log_decision", False]),
+                             ({"k": "configure", "log": None, "full": False}, ["configure", [], False]),
+                             (call, ["log_decision", False]),
+                             ({"k": "configure", "log": p2, "full": not full}, ["configure", [[p2, not full]], False]),
+                             (call, ["log_decision", False])]))
+    for path, script in scripts:
+        growth = run([q for q, _ in script], [path])
+        mq = [m for _, m in script if m is not None]
+        eff = model.call(["cache_effects", [], mq], record=True)
+        xcheck.append((model.last_request, [], eff))
+        it = iter(eff)
+        out.case("direct-transient:" + json.dumps([q for q, _ in script]))
+        out.count("direct_optional_args", "transient-fault script")
+        for (q, m), g in zip(script, growth):
+            e = next(it) if m is not None else []
+            if q["k"] != "log_call":
+                continue
+            wrote = [[x[3].count("\n"), '"command"' in x[3]] for x in g if x[2] > x[1]]
+            want = [[1, e[1] == "1"]] if e else []
+            if wrote != want:
+                out.disagreements.append({"correspondence": "Cache.effects <-> direct log_decision calls around a fault that comes and goes",
+                                          "script": [q for q, _ in script], "at": q, "model": want, "impl": wrote})
+    shutil.rmtree(d, ignore_errors=True)
+
+
 def inproc_histories(out, model, root, tier, rng, xcheck, replay=None):
     quick = tier == "quick"
     modes = ["claude", "gemini", "cursor"]
@@ -849,6 +958,7 @@ def run(tier, seed, replay=None):
 
         if not (replay and (replay.get("scenario") or replay.get("skip"))):
             inproc_histories(out, model, root, tier, rng, xcheck)
+            direct_calls(out, model, root, tier, rng, xcheck)
             # JSON writer: model jline == json.dumps, model reader == UTF-16 units, python reads it back
             n_json = 300 if tier == "quick" else 5000
             for e in json_cases(rng, n_json):
